@@ -1002,6 +1002,77 @@ fn ind_fixed_key_fresh() {
 // @assume BTreeMap modelled by harness/model/vmap.rs
 ind_harness!(i_fixed_key_fresh, ind_fixed_key_fresh());
 
+// step: slot recycling across kinds.  Pre-state: slot 0 holds a live timer (kind K0, INV), slot 1 is FREE with an
+// arbitrary generation g1 (it was used by some earlier timer of any kind whose key (1, g_old) is stale: g_old != g1,
+// by a_slot_generation_step).  A new Max or Min timer is created: it must take slot 1 with generation g1, the stale
+// key must stay inert for every operation, and the live timer in slot 0 must be untouched.
+fn ind_slot_reuse(k0: Kind, k1: Kind) {
+    let (n, g) = any_ghost(k0);
+    let mut w = build(n, &g, 0);
+    let g1: u32 = kani::any();
+    let g_old: u32 = kani::any();
+    kani::assume(g1 != 0 && g_old != g1);
+    w.t.var.push(VarSlot { gnn: g1, item: VarItem::Free(None) });
+    w.t.var_free = Some(1);
+    let e_off = any_off(0, 1 << 33);
+    let i = w.inst(e_off);
+    let (slot, gen) = match k1 {
+        Kind::Max => {
+            let k = w.t.add_max(i, cb(1));
+            (k.slot, k.gnn)
+        }
+        _ => {
+            let k = w.t.add_min(i, cb(1));
+            (k.slot, k.gnn)
+        }
+    };
+    assert!(slot == 1 && gen == g1 && w.t.var_free.is_none(), "C10: a new timer must reuse the free slot with its current generation");
+    assert!(queue_len(&w) == 2, "C10: creating a timer in a recycled slot disturbed another timer");
+    // the stale key of the slot's previous user: false and inert, whatever its kind was
+    let op: u8 = kani::any();
+    let r = match op {
+        0 => w.t.del(FixedTimerKey { slot: 1, gen_or_time: g_old }),
+        1 => w.t.del_max(MaxTimerKey { slot: 1, gnn: g_old }),
+        2 => w.t.del_min(MinTimerKey { slot: 1, gnn: g_old }),
+        3 => w.t.mod_max(MaxTimerKey { slot: 1, gnn: g_old }, i),
+        4 => w.t.mod_min(MinTimerKey { slot: 1, gnn: g_old }, i),
+        5 => w.t.max_is_active(MaxTimerKey { slot: 1, gnn: g_old }),
+        _ => w.t.min_is_active(MinTimerKey { slot: 1, gnn: g_old }),
+    };
+    assert!(!r, "C10: a stale key answered true after its slot was reused");
+    assert!(queue_len(&w) == 2 && w.t.var[1].gnn == g1 && !matches!(w.t.var[1].item, VarItem::Free(_)), "C10: a stale key modified the timer that reuses its slot");
+    // the new key works, and deleting the new timer frees the slot again with yet another generation
+    let r2 = match k1 {
+        Kind::Max => w.t.max_is_active(MaxTimerKey { slot: 1, gnn: g1 }) && w.t.del_max(MaxTimerKey { slot: 1, gnn: g1 }),
+        _ => w.t.min_is_active(MinTimerKey { slot: 1, gnn: g1 }) && w.t.del_min(MinTimerKey { slot: 1, gnn: g1 }),
+    };
+    assert!(r2 && queue_len(&w) == 1 && w.t.var_free == Some(1) && w.t.var[1].gnn != g1 && w.t.var[1].gnn != 0, "C10: delete of the recycled timer");
+    // slot 0's timer is still exactly as it was
+    let back = read_back(&w, k0, g.e, g.s1);
+    assert!(back.is_some() && back.unwrap().c == g.c && back.unwrap().gnn == g.gnn, "C10: another timer was modified");
+    kani::cover!(op == 1, "stale Max key");
+    kani::cover!(g1 == u32::MAX, "generation about to wrap");
+    std::mem::forget(w);
+}
+// @verif prop=C10 tier=quick timeout=1200 mem=12 unwind=5
+// @enc Timers::add_max Timers::alloc_slot Timers::del_max Timers::free_slot + all key operations
+// @sym live Max timer in slot 0 (any INV state); free slot 1 with any generation; stale generation any other value; new expiry any; any of the 7 key operations with the stale key
+// @bound one allocation into a recycled slot, one stale-key operation, one delete (inductive over the free list head and generations)
+// @assume BTreeMap modelled by harness/model/vmap.rs (2 entries)
+ind_harness!(i_slot_reuse_max_max, ind_slot_reuse(Kind::Max, Kind::Max));
+// @verif prop=C10 tier=quick timeout=1200 mem=12 unwind=5
+// @enc Timers::add_min Timers::alloc_slot Timers::del_min Timers::free_slot + all key operations
+// @sym live Min timer in slot 0; free slot 1 recycled by a new Min timer... (as i_slot_reuse_max_max with kinds Min/Max swapped)
+// @bound as i_slot_reuse_max_max
+// @assume BTreeMap modelled by harness/model/vmap.rs (2 entries)
+ind_harness!(i_slot_reuse_min_max, ind_slot_reuse(Kind::Min, Kind::Max));
+// @verif prop=C10 tier=quick timeout=1200 mem=12 unwind=5
+// @enc as i_slot_reuse_max_max (new timer is a Min timer)
+// @sym live Max timer in slot 0; free slot 1 recycled by a new Min timer
+// @bound as i_slot_reuse_max_max
+// @assume BTreeMap modelled by harness/model/vmap.rs (2 entries)
+ind_harness!(i_slot_reuse_max_min, ind_slot_reuse(Kind::Max, Kind::Min));
+
 // ------------------------------------------------------------------------------------------
 // Layer C: two fixed timers pending together (C19 order, mutual non-interference), inductive step
 // INV2: INV for each; A was created before B: slotA < slotB (sequence numbers, no 2^31 wrap in between),
@@ -1071,6 +1142,56 @@ fn two_fixed(clamped_class: bool, max_ahead_secs: u64) {
 // @stub FnOnceQueue::push_box -> callback invoked at once (execution order = push order; queue FIFO is C01/C17)
 // @assume BTreeMap modelled by harness/model/vmap.rs (total-order precondition asserted); no 2^31 wrap of the sequence counter between the two creations
 ind_harness!(c_two_fixed_order, two_fixed(false, 70000));
+
+// A variable (Max or Min) timer and a fixed timer pending together: each must behave exactly as it does alone.
+fn var_and_fixed(kind: Kind, max_ahead_secs: u64) {
+    let (n, g) = any_ghost(kind);
+    let f = Ghost { kind: Kind::Fixed, e: kani::any(), s1: kani::any(), c: kani::any(), slot: kani::any(), gnn: 0 };
+    kani::assume(inv_numbers(n, &f));
+    kani::assume(n < (1 << 50) - (0x30000 << 16));
+    let mut w = build(n, &g, 0);
+    w.t.seq = f.slot & 0x7FFF_FFFF;
+    std::mem::forget(w.t.queue.insert(TimerKey::new(Time(f.c).wt(), f.slot), cb(1)));
+    let x = any_target(n, max_ahead_secs);
+    let nf = tick_of_floor(&w, x);
+    let n2 = if nf > n { nf } else { n };
+    w.c.in_run = true;
+    w.t.advance(w.inst(x), &mut w.q);
+    w.q.execute(&mut w.c);
+    w.c.in_run = false;
+    let (fv, ff) = (w.c.cnt[0], w.c.cnt[1]);
+    assert!(fv <= 1 && ff <= 1, "C08: fired more than once");
+    assert!((ff == 1) == (n2 >= f.c), "C07/C08: fixed timer fired early / late next to a variable timer");
+    let dl = if g.e > g.s1 { g.e } else { g.s1 };
+    if fv == 1 {
+        assert!(g.e <= n2 && n2 > n, "C07: variable timer fired before its effective expiry next to a fixed timer");
+        assert!(matches!(w.t.var[0].item, VarItem::Free(_)) && w.t.var[0].gnn != g.gnn, "C10: slot not released");
+    } else {
+        assert!(n2 < dl, "C08: variable timer not fired although the clock reached its deadline tick (next to a fixed timer)");
+        assert!(!matches!(w.t.var[0].item, VarItem::Free(_)) && w.t.var[0].gnn == g.gnn, "C10: pending timer's slot changed");
+    }
+    assert!(queue_len(&w) == 2 - (fv as usize) - (ff as usize), "C08: queue does not hold exactly the pending timers");
+    assert!(!w.c.outside);
+    kani::cover!(fv == 1 && ff == 1, "both fired");
+    kani::cover!(fv == 0 && ff == 1, "only the fixed timer fired");
+    kani::cover!(fv == 0 && ff == 0 && n2 > n, "neither fired");
+    kani::cover!(n2 - n > LONG, "multi-step jump");
+    std::mem::forget(w);
+}
+// @verif prop=C07,C08,C10 tier=thorough timeout=3000 mem=20 unwind=5 unwindset=::advance\.1$:5,::advance\.0$:4
+// @enc Timers::advance (Max and fixed branches together) Timers::free_slot
+// @sym any Max timer (INV) and any fixed timer (INV) pending together; target up to 70000 s ahead
+// @bound one advance from an arbitrary 2-timer state (inductive step)
+// @stub FnOnceQueue::push_box -> callback invoked at once
+// @assume BTreeMap modelled by harness/model/vmap.rs (2 entries)
+ind_harness!(c_max_and_fixed, var_and_fixed(Kind::Max, 70000));
+// @verif prop=C07,C08,C10 tier=thorough timeout=3000 mem=20 unwind=5 unwindset=::advance\.1$:5,::advance\.0$:4
+// @enc Timers::advance (Min and fixed branches together) rounded_75point
+// @sym any Min timer (INV) and any fixed timer (INV) pending together; target up to 70000 s ahead
+// @bound one advance from an arbitrary 2-timer state (inductive step)
+// @stub FnOnceQueue::push_box -> callback invoked at once
+// @assume BTreeMap modelled by harness/model/vmap.rs (2 entries)
+ind_harness!(c_min_and_fixed, var_and_fixed(Kind::Min, 70000));
 
 // The class recorded as finding F2 (known_findings.txt): the timer with the earlier deadline was given a deadline
 // at or before "now + 1 tick", which `add` clamps; deadline order is then lost.  Fails on the pinned tree by design.
